@@ -4,7 +4,7 @@ package main
 //
 // One current message `m` (built through the API or produced by a parse).  Ops (one per line):
 //   new | set|sets|setf|setw <sec> <tag> <hex> | seti <sec> <tag> <int> | setb <sec> <tag> y|n | rm <sec> <tag> | clear <sec>
-//   setgrp <sec> <instance> | copy | build | copybuild | reparse <mode> | parse <mode> <hex> | bytes | rebuild
+//   setgrp <sec> <instance> | copy | fork | sidebuild | build | copybuild | reparse <mode> | parse <mode> <hex> | bytes | rebuild
 //   has <sec> <tag> | get <sec> <tag> | geti <sec> <tag> | tags <sec> | getgrp <sec> <tag> <template>
 //   ddef t <id> <hdr csv> <trl csv> | ddef a <id> <msgtype hex> <tree> | static
 // <sec> = h|b|t;  <mode> = n | a:<app> | ta:<transport>:<app>
@@ -462,11 +462,14 @@ type codecImpl struct {
 	// the group objects handed to SetGroup in this case, by tag and template: `getgrp` reads some groups back through
 	// `written.Clone()` (documented as "a fresh group with the same tag and template") instead of a newly built reader
 	written map[string]*quickfix.RepeatingGroup
+	// a copy taken by `fork` and kept aside while the source goes on being edited; `sidebuild` serialises it
+	side *quickfix.Message
 }
 
 func (c *codecImpl) reset(string) {
 	c.m = quickfix.NewMessage()
 	c.written = map[string]*quickfix.RepeatingGroup{}
+	c.side = nil
 }
 
 func grpKey(tag int, tmpl []tItem) string { return fmt.Sprintf("%d/%v", tag, tmpl) }
@@ -534,7 +537,17 @@ func (c *codecImpl) exec(op string) string {
 		switch w[0] {
 		case "new":
 			c.m = quickfix.NewMessage()
+			c.side = nil
 			return "ok"
+		case "fork":
+			c.side = copyOf(c.m)
+			return "ok"
+		case "sidebuild":
+			if c.side == nil {
+				return "none"
+			}
+			b := c.side.Bytes()
+			return "bytes " + hx(b) + " wf:" + yn(wireWF(b))
 		case "set":
 			c.sec(w[1]).SetBytes(quickfix.Tag(codecMustInt(w[2])), unhx(w[3]))
 			return "ok"
